@@ -152,26 +152,15 @@ impl World {
         if self.poisoned {
             return json!({"t": "skipped", "v": "poisoned"});
         }
-        let (tx, rx) = mpsc::channel();
         let job = self.prepare(a);
         let Some(job) = job else { return json!({"t": "badaction", "v": a.to_string()}) };
-        std::thread::Builder::new()
-            .stack_size(64 << 20)
-            .spawn(move || {
-                let r = std::panic::catch_unwind(std::panic::AssertUnwindSafe(job));
-                let _ = tx.send(r);
-            })
-            .unwrap();
         let timeout = Duration::from_millis(
             std::env::var("VH_HANG_MS").ok().and_then(|s| s.parse().ok()).unwrap_or(4000),
         );
-        match rx.recv_timeout(timeout) {
-            Ok(Ok(out)) => self.finish(out),
-            Ok(Err(p)) => {
-                let msg = p.downcast_ref::<String>().cloned().or(p.downcast_ref::<&str>().map(|s| s.to_string())).unwrap_or_default();
-                json!({"t": "panic", "v": msg})
-            }
-            Err(_) => {
+        match run_guarded(job, timeout) {
+            Guarded::Done(out) => self.finish(out),
+            Guarded::Panic(msg) => json!({"t": "panic", "v": msg}),
+            Guarded::Hang => {
                 self.poisoned = true;
                 json!({"t": "hang", "v": a["op"].as_str().unwrap_or("")})
             }
@@ -569,6 +558,59 @@ impl World {
             Err(e) => json!({"t": "err", "els": [], "warn": [err_name(&e)], "len": 0}),
         }
     }
+}
+
+pub enum Guarded {
+    Done(Out),
+    Panic(String),
+    Hang,
+}
+
+type Job = Box<dyn FnOnce() -> Out + Send>;
+struct Executor {
+    tx: mpsc::Sender<(Job, mpsc::Sender<std::thread::Result<Out>>)>,
+}
+
+fn new_executor() -> Executor {
+    let (tx, rx) = mpsc::channel::<(Job, mpsc::Sender<std::thread::Result<Out>>)>();
+    std::thread::Builder::new()
+        .stack_size(256 << 20)
+        .spawn(move || {
+            while let Ok((job, back)) = rx.recv() {
+                let r = std::panic::catch_unwind(std::panic::AssertUnwindSafe(job));
+                let _ = back.send(r);
+            }
+        })
+        .unwrap();
+    Executor { tx }
+}
+
+thread_local! {
+    static EXEC: std::cell::RefCell<Option<Executor>> = const { std::cell::RefCell::new(None) };
+}
+
+/// run a call of the code under test on a long-lived executor thread behind catch_unwind and a watchdog;
+/// an executor whose call never returns is abandoned (the thread is leaked) and replaced
+pub fn run_guarded(job: Job, timeout: Duration) -> Guarded {
+    EXEC.with(|cell| {
+        let mut slot = cell.borrow_mut();
+        if slot.is_none() {
+            *slot = Some(new_executor());
+        }
+        let (btx, brx) = mpsc::channel();
+        slot.as_ref().unwrap().tx.send((job, btx)).unwrap();
+        match brx.recv_timeout(timeout) {
+            Ok(Ok(out)) => Guarded::Done(out),
+            Ok(Err(p)) => {
+                let msg = p.downcast_ref::<String>().cloned().or(p.downcast_ref::<&str>().map(|s| s.to_string())).unwrap_or_default();
+                Guarded::Panic(msg)
+            }
+            Err(_) => {
+                *slot = None;
+                Guarded::Hang
+            }
+        }
+    })
 }
 
 pub enum Out {
